@@ -691,6 +691,9 @@ def call_contract(ex, e, st, name, c):
         if key not in table:
             raise U(f"call of {name}: cannot select a contract variant statically (key {key})")
         c = ex.registry.contracts[table[key]]
+        if d.get("fallback") and any(g not in st.env for g in c.get("ghost_params", {})):
+            # the caller does not carry the ghost inputs of the precise variant: the weaker (assumed) contract is used at this site, and reported as such
+            c = ex.registry.contracts[d["fallback"]]
     for g in c.get("ghost_params", {}):            # spec-only inputs: the caller supplies them under the same name
         if g not in st.env:
             raise U(f"call of {name}: the caller has no ghost value `{g}` to pass for the callee's ghost input")
